@@ -242,7 +242,7 @@ LEVEL_TEXT = (
     "equal copies must give bit-identical coefficients, the inner candidates of the search are recorded and the returned "
     "function's squared error is compared with independently run single fits over the whole requested grid (and the VLE "
     "fit with each of the nine methods); the fitted function's evaluation and scaling laws are checked against an "
-    "independent formula."
+    "independent formula. Returned fits are overwritten by the caller before an identical request is repeated."
 )
 LEVEL_NOTE = "Trusted: scipy's optimisers are deterministic for equal inputs in one process; errors are recomputed by the harness."
 TECHNIQUE = "runtime monitoring: deep-fingerprint purity monitor + recorded inner candidates + best-of oracle over call histories on shared objects"
